@@ -53,7 +53,8 @@ def vec(spec, n):
         if a.size != n:
             raise HarnessError('vector spec has {} entries, space {}'
                                ''.format(a.size, n))
-        return a
+        # no subnormal-scale data (float32 subnormals start at 1e-38)
+        return np.where(np.abs(a) < 1e-30, 0.0, a)
     g = spec['gen']
     rng = np.random.RandomState(int(g['seed']) % (2 ** 32))
     sc = float(g.get('scale', 1.0))
@@ -1029,13 +1030,15 @@ class Built(object):
         self.rules = list(rules)
 
 
-def _orth(n, seed, c):
+def _orth(n, seed, c, dtype='float64'):
     rng = np.random.RandomState(int(seed) % (2 ** 32))
     if n <= 1:
         q = np.ones((n, n))
     else:
         q, _ = np.linalg.qr(rng.standard_normal((n, n)))
-    return float(c) * q
+    # entries representable in the dtype of the space (MatrixOperator
+    # refuses to down-cast)
+    return (float(c) * q).astype(dtype)
 
 
 def build_ref(fd, rsp):
@@ -1076,7 +1079,8 @@ def build_ref(fd, rsp):
         op = fd['op']
         if op['kind'] == 'scaling':
             return R.RCompose(h, op['s'] * np.eye(n), op['s'] ** 2)
-        return R.RCompose(h, _orth(n, op['seed'], op['c']), op['c'] ** 2)
+        return R.RCompose(h, _orth(n, op['seed'], op['c'],
+                                   rsp.dtype).astype(float), op['c'] ** 2)
     raise HarnessError('unknown tree node {!r}'.format(t))
 
 
@@ -1285,7 +1289,7 @@ def build_odl(fd, space, mode, rsp):
             L = odl.ScalingOperator(space, float(op['s']))
             mu = float(op['s']) ** 2
         else:
-            L = odl.MatrixOperator(_orth(n, op['seed'], op['c']),
+            L = odl.MatrixOperator(_orth(n, op['seed'], op['c'], rsp.dtype),
                                    domain=space, range=space)
             mu = float(op['c']) ** 2
         return PO.proximal_composition(fac, L, mu), None
